@@ -25,7 +25,7 @@ for log in sys.argv[1:]:
         shutil.copy(os.path.join(inc, "mut%s.diff" % k), os.path.join(d, "patch.diff"))
         shutil.copy(os.path.join(inc, "demo%s.py" % k), os.path.join(d, "demo.py"))
         note = open(os.path.join(inc, "note%s.txt" % k)).read() if os.path.exists(os.path.join(inc, "note%s.txt" % k)) else ""
-        meta = {"breaks_property": ident, "needs_to_manifest": note.strip()[:2500],
+        meta = {"breaks_property": ident.split("_")[-1], "needs_to_manifest": note.strip()[:2500],
                 "confirmed": ("scratch copy of /repo with the patch: existing suite %s passed (PYTHONPATH=<copy>/src); demo.py exit %s with the change, exit %s on /repo"
                               % (suite.group(1) if suite else "?", exits[0] if exits else "?", exits[1] if len(exits) > 1 else "?")),
                 "confirmed_ok": confirmed,
